@@ -58,7 +58,8 @@ so that the renderings of the earlier modules stay byte-identical):
     file is written with every argument as a keyword (`C(a=,k=)`), whichever way the source passes them;
   * `if c: return a` directly followed by `return b` (and `if c: return a else: return b`) is `return a if c else b`;
   * `for x in it: if c: return True` directly followed by `return False` is `return any(c for x in it)`;
-  * the empty dict literal `{}`; `xs.index(v)`, `zip(xs, ys)` (builtins of the interpreter);
+  * the empty dict literal `{}`; `xs.index(v)`, `zip(xs, ys)`, `d.items()` (builtins of the interpreter);
+    `d.setdefault(k, v)` as a statement on a local dict is `t = v; if k not in d: d[k] = t`;
   * `<name>[i].append(v)` is `<name>[i] = <name>[i] + [v]` under the side conditions of `append` on `<name>` and when
     every element ever put into `<name>` is a fresh list (a list display), so that the inner lists are unshared;
   * a comprehension with a tuple target over `zip(a, b, …)` with as many arguments as targets:
@@ -374,12 +375,14 @@ class Tr:
         if len(e.generators) != 1:
             raise TranslationError("comprehension with several `for`s")
         g = e.generators[0]
+        pairs = isinstance(g.iter, ast.Call) and not g.iter.keywords and (
+            (isinstance(g.iter.func, ast.Name) and g.iter.func.id == "zip" and len(g.iter.args) == 2      # noqa: PLR2004
+             and "zip" not in self.bound)
+            or (isinstance(g.iter.func, ast.Attribute) and g.iter.func.attr == "items" and not g.iter.args))
         if self.plumbing and not g.is_async and isinstance(g.target, ast.Tuple) \
-                and all(isinstance(t, ast.Name) for t in g.target.elts) and isinstance(g.iter, ast.Call) \
-                and isinstance(g.iter.func, ast.Name) and g.iter.func.id == "zip" and not g.iter.keywords \
-                and len(g.iter.args) == len(g.target.elts) == 2 and "zip" not in self.bound \
-                and len({t.id for t in g.target.elts}) == 2:      # noqa: PLR2004
-            # every item of `zip(a, b)` is a pair, so unpacking it cannot fail: the targets are its two components
+                and all(isinstance(t, ast.Name) for t in g.target.elts) and pairs \
+                and len(g.target.elts) == 2 and len({t.id for t in g.target.elts}) == 2:      # noqa: PLR2004
+            # every item of `zip(a, b)` / `d.items()` is a pair, so unpacking it cannot fail: the targets are its components
             x = self.tmp()
             self.bound.add(x)
             it = self.expr(g.iter, sub)
@@ -545,6 +548,8 @@ class Tr:
             if f.attr == "get" and not starred and len(e.args) in (1, 2):
                 dflt = self.expr(e.args[1], sub) if len(e.args) == 2 else ("lit", ("none",))     # noqa: PLR2004
                 return ("call", "dictGet", [self.expr(f.value, sub), self.expr(e.args[0], sub), dflt])
+            if self.plumbing and f.attr == "items" and not e.args:
+                return ("call", "items", [self.expr(f.value, sub)])
             if self.plumbing and f.attr == "index" and not starred and len(e.args) == 1:
                 return ("call", "index", [self.expr(f.value, sub), self.expr(e.args[0], sub)])
             if starred:
@@ -731,6 +736,19 @@ class Tr:
             return []
         if self.is_log_call(s):
             return []
+        if self.plumbing and isinstance(s, ast.Expr) and isinstance(s.value, ast.Call) \
+                and isinstance(s.value.func, ast.Attribute) and s.value.func.attr == "setdefault" \
+                and isinstance(s.value.func.value, ast.Name) and len(s.value.args) == 2 and not s.value.keywords \
+                and not any(isinstance(a, ast.Starred) for a in s.value.args):      # noqa: PLR2004
+            # `d.setdefault(k, v)` with the result discarded: `t = v; if k not in d: d[k] = t` (v is evaluated anyway)
+            dname = s.value.func.value.id
+            if dname in self.params or dname not in self.bound:
+                raise TranslationError(f"setdefault on `{dname}`, which is not a local dict of this function")
+            t = self.tmp()
+            self.bound.add(t)
+            k = self.expr(s.value.args[0])
+            return [("assign", t, self.expr(s.value.args[1])),
+                    ("ite", ("cmp", "notIn", k, ("var", dname)), [("setIndex", dname, k, ("var", t))], [])]
         na = self.nested_append(s) if self.plumbing else None
         if na:
             x, i, v = na
